@@ -128,9 +128,13 @@ func (P *Program) loopHeaderText(fn *ssa.Function, li *loopInfo) string {
 // verifyFunction builds all obligations of one function (after inferring
 // simple loop invariants).
 func verifyFunction(P *Program, U *Universe, fn *ssa.Function, props []string) *Enc {
-	kept := map[loopKey][]*Clause{}
-	if hasLoops(P, fn, 0, map[*ssa.Function]bool{}) {
-		kept = inferInvariants(P, U, fn, P.OutDir+"/houdini", 0)
+	kept := inferAll(P, U, []*ssa.Function{fn}, P.OutDir+"/houdini", 0)[fn]
+	return verifyWith(P, U, fn, props, kept)
+}
+
+func verifyWith(P *Program, U *Universe, fn *ssa.Function, props []string, kept map[loopKey][]*Clause) *Enc {
+	if kept == nil {
+		kept = map[loopKey][]*Clause{}
 	}
 	e := newEnc(P, U, fn)
 	e.keptInv = kept
